@@ -41,7 +41,8 @@ def cases(draw):
 
 def plan(tier):
     n = 1000 if tier == "quick" else 50000
-    return [{"kind": "hyp", "name": "volume-directories", "strategy": cases(), "examples": n}]
+    return [{"kind": "hyp", "name": "volume-directories", "strategy": cases(), "examples": n},
+            {"kind": "hyp", "name": "in-place-pairs", "strategy": common.in_place_pairs(cases()), "examples": max(100, n // 10)}]
 
 
 def classify(case):
